@@ -489,6 +489,30 @@ def t4_sign_survives(ctx: Ctx):
     ctx.check(len(users) >= 1, NEGZERO, fn, '_sign_survives', 'the predicate is consulted by the rewriter', 'no caller')
 
 
+def t7_wrapping_declined(ctx: Ctx):
+    """UnfoldOverflow writes the overflow value out as a constant, so it needs a format whose overflow is one.  It asks by
+    rounding two operands far apart; a wrapping format answers modulo its number of values, and two probes can agree by
+    arithmetic accident (they do whenever that number divides 2**63 - 1).  So the overflow *mode* has to be asked too:
+    `_Prober._overflow`, evaluated from its source with both probes agreeing, must still decline a WRAP context, and
+    accept the others."""
+    from ..minipy import Interp, Obj
+    fn = ctx.fn(OVERFLOW, '_Prober._overflow')
+    getattr_ = lambda o, a, d=None: o.fields.get(a, d) if isinstance(o, Obj) else d  # noqa: E731
+    for mode in ('WRAP', 'SATURATE', 'OVERFLOW', None):
+        val = Obj('Float')
+        fields = {'round': lambda x, v=val: v}
+        if mode is not None:
+            fields['overflow'] = ('enum', 'OverflowMode', mode)
+        me = Obj('_Prober', ctx=Obj('Context', **fields))
+        it = Interp({}, {}, self_obj=me, overrides={'shift': lambda b, k: (b, k), 'same_value': lambda a, b: a is b, 'getattr': getattr_})
+        got = it.call_function(fn, ['MAX', 'NEGMAX'], bound_self=True)
+        if mode == 'WRAP':
+            ctx.check(got is None, OVERFLOW, fn, '_Prober._overflow', 'a wrapping format is declined even when the two overflow probes agree',
+                      f'answers {got!r}: SMFixedContext(0, 3) (7 values, 2**63 = 1 mod 7) is lowered to a constant overflow, and 4 rounds to -1 instead of -3')
+        else:
+            ctx.check(isinstance(got, tuple) and len(got) == 2, OVERFLOW, fn, '_Prober._overflow', f'overflow mode {mode}: agreeing probes give the constant pair', f'answers {got!r}')
+
+
 def t6_zero_sum_scopes(ctx: Ctx):
     """A rounding that does not change the value can still decide the sign of a zero: terms of unlike sign that cancel
     give -0 where the scope rounds toward negative and +0 elsewhere (ops._zero_sum).  So neither pass may move an
@@ -580,6 +604,7 @@ def f3_rebuild_parameters(ctx: Ctx):
 RULES = [
     Rule('C10.T3', 'float-to-fixed: the overflow policy is accepted only when both overflow probes show it', t3_overflow_policy, 1, 'T'),
     Rule('C10.T4', 'negative-zero unfolding is refused exactly where a zero of foreign sign is reachable (wrap, or a zero substituted for a disabled NaN / infinity)', t4_sign_survives, 2, 'T'),
+    Rule('C10.T7', 'overflow unfolding declines a wrapping format by its mode, not only by two probes that may coincide', t7_wrapping_declined, 4, 'T'),
     Rule('C10.T6', 'no addition or subtraction is moved across a round-toward-negative scope (its rounding decides the sign of a zero sum)', t6_zero_sum_scopes, 8, 'T'),
     Rule('C10.T5', 'special-value unfolding sheds the infinity rule only where no finite operand reaches the infinity (either sign, random bits)', t5_shed_rules, 1, 'T'),
     Rule('C10.F3', 'a rebuilt format / context receives every carried-over parameter under its own name (no swapped or shifted arguments)', f3_rebuild_parameters, 30, 'F'),
@@ -596,6 +621,9 @@ RULES = [
 from ..selftest import Mutant  # noqa: E402
 
 MUTANTS = [
+    Mutant('wrapping-format-judged-by-two-probes', OVERFLOW, "        if getattr(self.ctx, 'overflow', None) is OverflowMode.WRAP:", "        if False:", 'C10.T7',
+           'finding F86 before its repair: SMFixedContext(0, 3) lowered to a constant overflow'),
+    Mutant('saturating-format-declined-too', OVERFLOW, "        if getattr(self.ctx, 'overflow', None) is OverflowMode.WRAP:", "        if getattr(self.ctx, 'overflow', None) is not OverflowMode.OVERFLOW:", 'C10.T7'),
     Mutant('round-elim-hoists-sums-out-of-rtn', T + 'round_elim.py', "        if isinstance(e, (Add, Sub)) and getattr(ctx, 'rm', None) is RM.RTN:", "        if False:", 'C10.T6',
            'finding F72 before its repair: x - x under an RTN binary16 scope is -0.0, hoisted it is +0.0'),
     Mutant('round-insert-places-sums-under-rtn', T + 'round_insert.py', "        if isinstance(e, (Add, Sub)) and getattr(self.ctx, 'rm', None) is RM.RTN:", "        if isinstance(e, Add) and getattr(self.ctx, 'rm', None) is RM.RTN:", 'C10.T6'),
